@@ -20,11 +20,52 @@ fn main() {
     let model = std::env::args().nth(1).expect("usage: replay <model> ...");
     match model.as_str() {
         "graph" => graph(),
+        "names" => names(),
         other => {
             eprintln!("unknown model {other}");
             std::process::exit(2);
         }
     }
+}
+
+/// C15: REPLAY lines (NameMap state machine, small universe) and PAIRS lines (relation, full universe)
+fn names() {
+    use wac_verif_harness::namesreplay::{replay_map_line, replay_pairs_line, NameUniverses};
+    let data = arg("--data", "data");
+    let max_findings: usize = arg("--max-findings", "200").parse().unwrap();
+    let u = NameUniverses::load(&data);
+    let stdin = std::io::stdin();
+    let out = std::io::stdout();
+    let mut out = out.lock();
+    let (mut lines, mut gets, mut pairs, mut findings) = (0usize, 0usize, 0usize, 0usize);
+    for line in stdin.lock().lines() {
+        let line = line.unwrap();
+        let mut fs = Vec::new();
+        if let Some(js) = tlc_line(&line, "REPLAY") {
+            let v: Value = serde_json::from_str(&js).unwrap();
+            lines += 1;
+            gets += u.small.len();
+            fs = replay_map_line(&u.small, &v);
+        } else if let Some(js) = tlc_line(&line, "PAIRS") {
+            let v: Value = serde_json::from_str(&js).unwrap();
+            lines += 1;
+            let universe = if v["n"].as_u64() == Some(u.small.len() as u64) {
+                &u.small
+            } else {
+                &u.full
+            };
+            let (f, n) = replay_pairs_line(universe, &v);
+            pairs += n;
+            fs = f;
+        }
+        for f in fs {
+            findings += 1;
+            if findings <= max_findings {
+                writeln!(out, "{f}").unwrap();
+            }
+        }
+    }
+    writeln!(out, "{}", json!({"summary": true, "lines": lines, "gets": gets, "pairs": pairs, "findings": findings})).unwrap();
 }
 
 fn graph() {
